@@ -219,7 +219,10 @@ ScalarClauses(op, s, A, cls, Rr, dv) ==
               <<"pointwise", SamplesCover(dv, ks, d) => \A u \in S : ObsVal(dv, u) = ScalarValue(op, s, Eval(A, u))>>})
 
 (* ---- equality ----------------------------------------------------------------*)
-EqValue(A, B) == Limits(A.U) = Limits(B.U) /\ SameFunction(A, B)
+(* TRUE / FALSE, or NaR when the comparison left TLC's range (the harness then skips the transition) *)
+EqValue(A, B) ==
+  LET r == SameFunction3(A, B) IN
+  IF r = "yes" THEN TRUE ELSE IF r = "no" THEN FALSE ELSE NaR
 
 (* ---- fitting -----------------------------------------------------------------*)
 (* S.fit_curve(C): D on V.  polynomial source and target.  err: returned error    *)
